@@ -360,7 +360,7 @@ func (schema *Schema) buildMany2ManyRelation(relation *Relationship, field *Fiel
 	})
 
 	if relation.JoinTable, err = parseWithSpecialTableName(reflect.New(reflect.StructOf(joinTableFields)).Interface(), schema.cacheStore,
-		schema.namer, ""); err != nil {
+		schema.namer, "", false); err != nil {
 		schema.err = err
 	}
 	relation.JoinTable.Name = many2many
